@@ -67,6 +67,14 @@ class Probes:
             elif isinstance(raw, property):
                 f = raw.fget
                 setattr(cls, parts[1], property(self._wrap(name, f), raw.fset, raw.fdel, raw.__doc__))
+            elif isinstance(raw, functools.cached_property):      # (a tree under test may have turned a property into a cached one: keep its semantics)
+                f = raw.func
+                cp = functools.cached_property(self._wrap(name, f))
+                cp.__set_name__(cls, parts[1])
+                setattr(cls, parts[1], cp)
+            elif not callable(raw):      # some other descriptor / plain attribute: observed nowhere, left as it is
+                self._attached[name] = raw
+                return name
             else:
                 f = raw
                 setattr(cls, parts[1], self._wrap(name, f))
